@@ -454,6 +454,46 @@ var Probes = []Probe{
 	}},
 }
 
+func init() {
+	// systematic shrink/grow matrix around the block-map boundaries (direct 0..7, indirect 8..519, double 520..)
+	const B = 4096
+	Probes = append(Probes, Probe{"shrink-grow-matrix", []string{"C12", "C02", "C05"}, 16000, func(p *P) {
+		n := 0
+		for _, k := range []int{0, 7, 8, 9, 519, 520, 521, 1031, 1032} { // block that holds data
+			for _, grow := range []int{0, 1, 600, 1100} { // sparse growth (blocks beyond k), 0 = none
+				for _, cut := range []int{0, 1, 8, 9, 100, 519, 520, 521, 1032} { // shrink to this many blocks
+					for _, odd := range []int{0, 1000} { // ... plus this many bytes
+						if cut > k+1+grow {
+							continue
+						}
+						n++
+						name := "f"
+						f := p.Create(p.Root, name).RFh
+						p.Write(f, k*B+17, 3000, 2)
+						if grow > 0 {
+							p.Trunc(f, (k+1+grow)*B)
+						}
+						p.Trunc(f, cut*B+odd)
+						p.Trunc(f, (k+2)*B)
+						p.Read(f, k*B, B)
+						if cut > 0 {
+							p.Read(f, (cut-1)*B, 2*B)
+						}
+						p.Remove(p.Root, name)
+						if n%40 == 0 {
+							p.S.WaitIdle()
+							p.T.Emit(TakeSnap(p.S, "run", true))
+						}
+					}
+				}
+			}
+		}
+		p.S.WaitIdle()
+		p.T.Emit(TakeSnap(p.S, "run", true))
+		p.Tail()
+	}})
+}
+
 // RunProbes runs every probe that lists prop (all when prop is empty).
 func RunProbes(prop string, t *Trace, unstable bool) {
 	seg := 0
